@@ -185,7 +185,7 @@ def oracle(parts, outcome, obs):
 
 
 CLAIM = {
-    "text": "Theorems C09_vrate / C09_velocity / C09_gs_floor_sqrt / C09_track_floor_atan2 / C09_update / C09_downlink (Coq): for every 112-bit frame the vertical rate is +/-64*(field-1) (none for field 0) and ground speed / track are the specified functions of the signed components (none when a component field is 0); the ground speed is the integer floor of the square root; the integer track procedure equals floor(atan2(Vew,Vns)) in degrees normalised to [0,360) as a statement in the real numbers; the values reach the row on both update paths. Tied to the code on axes, diagonals, both neighbours of every integer-degree direction, random vectors, all 2x512 vertical-rate codes, first and later frames, both paths, dev and release builds.",
+    "text": "Theorems C09_vrate / C09_velocity / C09_gs_floor_sqrt / C09_track_floor_atan2 / C09_update / C09_downlink (Coq): for every 112-bit frame the vertical rate is +/-64*(field-1) (none for field 0) and ground speed / track are the specified functions of the signed components (none when a component field is 0); the ground speed is the integer floor of the square root; the integer track procedure equals floor(atan2(Vew,Vns)) in degrees normalised to [0,360) as a statement in the real numbers; the values reach the row on both update paths. Tied to the code on axes, diagonals, both neighbours of every integer-degree direction, random vectors, all 2x512 vertical-rate codes, first and later frames, both paths, dev and release builds. A velocity squitter that creates the row delivers its values (C09_new_row); the implementation's velocity decoder is swept over all 4.2 / 8.4 million sign-magnitude pairs (kind V).",
     "note": "C09_track_floor_atan2 depends on the standard library's real-number axioms (listed in the evidence). libm's atan2().to_degrees().floor() is tied to the proved integer procedure by execution only.",
     "technique": "Coq proof: RangeSpec rewriting for the decoders; Interval-proved tan enclosures + reflection gap check for floor(atan2); differential runs",
 }
